@@ -108,3 +108,232 @@ pub fn c05(op: &str, req: &Value) -> Result<Value, String> {
         _ => Err(format!("unknown c05 op {op}")),
     }
 }
+
+
+fn keypair(version: &str) -> Result<ruma_signatures::Ed25519KeyPair, String> {
+    let doc = ruma_signatures::Ed25519KeyPair::generate().map_err(|e| e.to_string())?;
+    ruma_signatures::Ed25519KeyPair::from_der(&doc, version.to_owned()).map_err(|e| e.to_string())
+}
+
+pub fn c03(op: &str, req: &Value) -> Result<Value, String> {
+    use ruma_signatures::{KeyPair, PublicKeyMap, PublicKeySet, Verified};
+    let v = req["version"].as_u64().unwrap_or(11);
+    let rules = version(v).rules().ok_or("no rules")?;
+    match op {
+        "signers" => {
+            let mut content = serde_json::Map::new();
+            if !req["membership"].is_null() { content.insert("membership".into(), req["membership"].clone()); }
+            if !req["third_party_invite"].is_null() { content.insert("third_party_invite".into(), req["third_party_invite"].clone()); }
+            if !req["authoriser"].is_null() { content.insert("join_authorised_via_users_server".into(), req["authoriser"].clone()); }
+            let mut ev = serde_json::Map::new();
+            ev.insert("type".into(), req["type"].clone());
+            ev.insert("content".into(), Value::Object(content));
+            if !req["sender"].is_null() { ev.insert("sender".into(), req["sender"].clone()); }
+            if !req["event_id"].is_null() { ev.insert("event_id".into(), req["event_id"].clone()); }
+            let obj = to_object(&Value::Object(ev))?;
+            Ok(match ruma_signatures::verif_servers_to_check_signatures(&obj, &rules.signatures) {
+                Ok(set) => json!({"r": "ok", "servers": set.iter().map(|s| s.as_str().to_owned()).collect::<Vec<_>>()}),
+                Err(e) => json!({"r": "err", "e": e.to_string()}),
+            })
+        }
+        "verify" => {
+            let states: Vec<String> = req["states"].as_array().map(|a| a.iter().filter_map(|x| x.as_str().map(str::to_owned)).collect()).unwrap_or_default();
+            let hstate = req["hash"].as_str().unwrap_or("match");
+            let servers = ["x", "y"];
+            // displayname and zzz are stripped by redaction: signatures must be made and checked over the redacted form
+            let mut content = json!({"membership": "join", "displayname": "A"});
+            if states.len() == 2 { content["join_authorised_via_users_server"] = json!("@b:y"); }
+            let ev = json!({"type": "m.room.member", "content": content, "sender": "@a:x", "event_id": "$e:x", "room_id": "!r:x", "state_key": "@a:x",
+                            "origin_server_ts": 1, "unsigned": {"age": 3}, "zzz": 7});
+            let mut obj = to_object(&ev)?;
+            // hashes as the scenario wants them, *before* signing (the signature covers them)
+            let good = ruma_signatures::content_hash(&obj).map_err(|e| e.to_string())?.encode();
+            let hashes = match hstate {
+                "match" => Some(json!({"sha256": good})),
+                "mismatch" => Some(json!({"sha256": base64::engine::general_purpose::STANDARD_NO_PAD.encode([7u8; 32])})),
+                "not_base64" => Some(json!({"sha256": "!!! not base64 !!!"})),
+                "hashes_absent" => None,
+                "hashes_not_object" => Some(json!(1)),
+                "sha256_absent" => Some(json!({"md5": "x"})),
+                _ => Some(json!({"sha256": 1})),
+            };
+            if let Some(h) = hashes { obj.insert("hashes".into(), CanonicalJsonValue::try_from(h).map_err(|e| e.to_string())?); }
+            let mut redacted = ruma_common::canonical_json::redact(obj.clone(), &rules.redaction, None).map_err(|e| e.to_string())?;
+            let kps = [keypair("1")?, keypair("1")?];
+            let other = keypair("1")?;
+            for (i, _) in states.iter().enumerate() {
+                ruma_signatures::sign_json(servers[i], &kps[i], &mut redacted).map_err(|e| e.to_string())?;
+            }
+            let mut sigs: serde_json::Map<String, Value> = match serde_json::to_value(redacted.get("signatures")).map_err(|e| e.to_string())? {
+                Value::Object(m) => m, _ => serde_json::Map::new() };
+            // a wrong signature: made by another key over the same text
+            let mut red2 = ruma_common::canonical_json::redact(obj.clone(), &rules.redaction, None).map_err(|e| e.to_string())?;
+            ruma_signatures::sign_json("w", &other, &mut red2).map_err(|e| e.to_string())?;
+            let wrong = serde_json::to_value(red2.get("signatures")).map_err(|e| e.to_string())?["w"]["ed25519:1"].clone();
+            let mut pkm = PublicKeyMap::new();
+            for (i, st) in states.iter().enumerate() {
+                let srv = servers[i];
+                let goodsig = sigs.get(srv).map(|s| s["ed25519:1"].clone()).unwrap_or(Value::Null);
+                let mut keyset = PublicKeySet::new();
+                keyset.insert("ed25519:1".into(), ruma_common::serde::Base64::new(kps[i].public_key().to_vec()));
+                match st.as_str() {
+                    "valid" => {}
+                    "wrong" => { sigs.insert(srv.into(), json!({"ed25519:1": wrong})); }
+                    "missing_set" => { sigs.remove(srv); }
+                    "set_not_object" => { sigs.insert(srv.into(), json!(1)); }
+                    "no_pubkeys" => { keyset.clear(); }
+                    "key_missing" => { let k = keyset.remove("ed25519:1").unwrap(); keyset.insert("ed25519:2".into(), k); }
+                    "not_string" => { sigs.insert(srv.into(), json!({"ed25519:1": 1})); }
+                    "not_base64" => { sigs.insert(srv.into(), json!({"ed25519:1": "!!! not base64 !!!"})); }
+                    "only_unknown_alg" => { sigs.insert(srv.into(), json!({"foo:1": goodsig, "nocolon": goodsig})); }
+                    _ => { sigs.insert(srv.into(), json!({"ed25519:1": goodsig, "foo:1": wrong, "nocolon": 1})); }
+                }
+                if !(st == "no_pubkeys") { pkm.insert(srv.into(), keyset); }
+            }
+            sigs.insert("zzz.other".into(), json!({"ed25519:1": wrong}));
+            obj.insert("signatures".into(), CanonicalJsonValue::try_from(Value::Object(sigs)).map_err(|e| e.to_string())?);
+            Ok(match ruma_signatures::verify_event(&pkm, &obj, &rules) {
+                Ok(Verified::All) => json!({"r": "ok", "v": "All"}),
+                Ok(Verified::Signatures) => json!({"r": "ok", "v": "Signatures"}),
+                Ok(_) => json!({"r": "ok", "v": "other"}),
+                Err(e) => json!({"r": "ok", "v": "Err", "e": e.to_string()}),
+            })
+        }
+        _ => Err(format!("unknown c03 op {op}")),
+    }
+}
+
+
+fn strip(v: &Value, keys: &[&str]) -> Value { let mut e = v.clone(); for k in keys { e.as_object_mut().unwrap().remove(*k); } e }
+
+fn sig_ok(kp: &ruma_signatures::Ed25519KeyPair, sig_b64: &Value, text: &str) -> bool {
+    use ruma_signatures::KeyPair;
+    let Some(s) = sig_b64.as_str() else { return false };
+    if s.ends_with('=') { return false; }
+    let Ok(bytes) = base64::engine::general_purpose::STANDARD_NO_PAD.decode(s) else { return false };
+    ruma_signatures::verify_canonical_json_bytes(&ruma_common::SigningKeyAlgorithm::Ed25519, &kp.public_key()[..], &bytes, text.as_bytes()).is_ok()
+}
+
+pub fn c02(op: &str, req: &Value) -> Result<Value, String> {
+    use ruma_signatures::{KeyPair, PublicKeyMap, PublicKeySet};
+    match op {
+        "sign" => {
+            let shape = req["signatures"].as_str().unwrap_or("absent");
+            let mut ev = json!({"content": {"body": "hi"}, "type": "m.x", "zzz": 7});
+            if req["unsigned"].as_bool().unwrap_or(false) { ev["unsigned"] = json!({"age": 3}); }
+            let own = json!({"ed25519:0": "b2xkIHNpZ25hdHVyZSB4MA"});
+            let oth = json!({"ed25519:1": "b2xkIHNpZ25hdHVyZSB5MQ"});
+            match shape {
+                "absent" => {}
+                "empty" => { ev["signatures"] = json!({}); }
+                "own_old" => { ev["signatures"] = json!({"x": own}); }
+                "other" => { ev["signatures"] = json!({"y": oth}); }
+                "own_and_other" => { ev["signatures"] = json!({"x": own, "y": oth}); }
+                "own_not_object" => { ev["signatures"] = json!({"x": 1, "y": oth}); }
+                _ => { ev["signatures"] = json!(1); }
+            }
+            let kp = keypair("1")?;
+            let mut obj = to_object(&ev)?;
+            let r = ruma_signatures::sign_json("x", &kp, &mut obj);
+            let after: Value = serde_json::to_value(&obj).map_err(|e| e.to_string())?;
+            let mut problems: Vec<String> = vec![];
+            match &r {
+                Err(_) => {
+                    if !matches!(shape, "own_not_object" | "not_object") { problems.push("unexpected error".into()); }
+                    if after != ev { problems.push(format!("a failed call changed the object: {} -> {}", ev, after)); }
+                }
+                Ok(()) => {
+                    if matches!(shape, "own_not_object" | "not_object") { problems.push("malformed signatures accepted".into()); }
+                    let text = canonical(&strip(&ev, &["signatures", "unsigned"]));
+                    if !sig_ok(&kp, &after["signatures"]["x"]["ed25519:1"], &text) { problems.push("signatures.x[ed25519:1] is not a valid unpadded-base64 Ed25519 signature of the canonical JSON without signatures/unsigned".into()); }
+                    if strip(&after, &["signatures"]) != strip(&ev, &["signatures"]) { problems.push("fields other than signatures changed".into()); }
+                    if let Some(m) = ev.get("signatures").and_then(|s| s.as_object()) {
+                        for (ent, set) in m {
+                            if let Some(set) = set.as_object() { for (k, v) in set { if after["signatures"][ent][k] != *v { problems.push(format!("earlier signature {ent}/{k} lost")); } } }
+                        }
+                    }
+                }
+            }
+            Ok(json!({"r": "ok", "verdict": if r.is_ok() { "Ok" } else { "Err" }, "problems": problems}))
+        }
+        "verify_json" => {
+            let states: Vec<String> = req["states"].as_array().map(|a| a.iter().filter_map(|x| x.as_str().map(str::to_owned)).collect()).unwrap_or_default();
+            let ev = json!({"content": {"body": "hi"}, "type": "m.x", "unsigned": {"age": 3}});
+            let kps = [keypair("1")?, keypair("1")?];
+            let other = keypair("1")?;
+            let servers = ["x", "y"];
+            let mut signed = to_object(&ev)?;
+            for i in 0..2 { ruma_signatures::sign_json(servers[i], &kps[i], &mut signed).map_err(|e| e.to_string())?; }
+            let sv: Value = serde_json::to_value(&signed).map_err(|e| e.to_string())?;
+            let mut w = to_object(&ev)?;
+            ruma_signatures::sign_json("w", &other, &mut w).map_err(|e| e.to_string())?;
+            let wrong = serde_json::to_value(&w).map_err(|e| e.to_string())?["signatures"]["w"]["ed25519:1"].clone();
+            let mut sigs = serde_json::Map::new();
+            let mut pkm = PublicKeyMap::new();
+            for (i, st) in states.iter().enumerate() {
+                let srv = servers[i];
+                let good = sv["signatures"][srv]["ed25519:1"].clone();
+                let mut keyset = PublicKeySet::new();
+                keyset.insert("ed25519:1".into(), ruma_common::serde::Base64::new(kps[i].public_key().to_vec()));
+                match st.as_str() {
+                    "valid" => { sigs.insert(srv.into(), json!({"ed25519:1": good})); }
+                    "wrong" => { sigs.insert(srv.into(), json!({"ed25519:1": wrong})); }
+                    "set_not_object" => { sigs.insert(srv.into(), json!(1)); }
+                    "no_pubkeys" => { sigs.insert(srv.into(), json!({"ed25519:1": good})); }
+                    "key_missing" => { sigs.insert(srv.into(), json!({"ed25519:1": good})); let k = keyset.remove("ed25519:1").unwrap(); keyset.insert("ed25519:2".into(), k); }
+                    "not_string" => { sigs.insert(srv.into(), json!({"ed25519:1": 1})); }
+                    "not_base64" => { sigs.insert(srv.into(), json!({"ed25519:1": "!!! not base64 !!!"})); }
+                    "only_unknown_alg" => { sigs.insert(srv.into(), json!({"foo:1": good, "nocolon": good})); }
+                    "valid_plus_unknown" => { sigs.insert(srv.into(), json!({"ed25519:1": good, "foo:1": wrong, "nocolon": 1})); }
+                    _ => {}
+                }
+                if st != "no_pubkeys" { pkm.insert(srv.into(), keyset); }
+            }
+            let mut e2 = ev.clone();
+            match req["signatures"].as_str().unwrap_or("object") {
+                "object" => { e2["signatures"] = Value::Object(sigs); }
+                "not_object" => { e2["signatures"] = json!(1); }
+                _ => {}
+            }
+            let r = ruma_signatures::verify_json(&pkm, &to_object(&e2)?);
+            Ok(json!({"r": "ok", "v": if r.is_ok() { "Ok" } else { "Err" }, "e": r.err().map(|e| e.to_string())}))
+        }
+        "hash_and_sign" => {
+            let rules = RoomVersionId::V11.rules().ok_or("no rules")?;
+            let mut ev = json!({"content": {"body": "hi", "extra": 1}, "type": "m.room.message", "sender": "@a:x", "room_id": "!r:x", "origin_server_ts": 1,
+                                "zzz": 7, "unsigned": {"age": 3}});
+            match req["hashes"].as_str().unwrap_or("absent") {
+                "object" => { ev["hashes"] = json!({"md5": "old"}); }
+                "not_object" => { ev["hashes"] = json!(1); }
+                _ => {}
+            }
+            let kp = keypair("1")?;
+            let mut obj = to_object(&ev)?;
+            let r = ruma_signatures::hash_and_sign_event("x", &kp, &mut obj, &rules.redaction);
+            let after: Value = serde_json::to_value(&obj).map_err(|e| e.to_string())?;
+            let mut problems: Vec<String> = vec![];
+            if req["hashes"] == "not_object" {
+                if r.is_ok() { problems.push("non-object hashes accepted".into()); }
+            } else if r.is_err() {
+                problems.push(format!("unexpected error {:?}", r.as_ref().err().map(|e| e.to_string())));
+            } else {
+                let text = canonical(&strip(&ev, &["hashes", "signatures", "unsigned"]));
+                let want = base64::engine::general_purpose::STANDARD_NO_PAD.encode(Sha256::digest(text.as_bytes()));
+                if after["hashes"]["sha256"] != json!(want) { problems.push("hashes.sha256 is not the unpadded base64 SHA-256 of the canonical JSON without hashes/signatures/unsigned".into()); }
+                // redacted m.room.message (v11): content emptied, zzz / unsigned dropped
+                let red = json!({"content": {}, "hashes": after["hashes"].clone(), "type": "m.room.message", "sender": "@a:x", "room_id": "!r:x", "origin_server_ts": 1});
+                if !sig_ok(&kp, &after["signatures"]["x"]["ed25519:1"], &canonical(&red)) { problems.push("the signature is not over the canonical JSON of the redacted event".into()); }
+                let mut pkm = PublicKeyMap::new();
+                let mut ks = PublicKeySet::new();
+                ks.insert("ed25519:1".into(), ruma_common::serde::Base64::new(kp.public_key().to_vec()));
+                pkm.insert("x".into(), ks);
+                match ruma_signatures::verify_event(&pkm, &obj, &rules) {
+                    Ok(ruma_signatures::Verified::All) => {}
+                    other => problems.push(format!("verify_event on the result: {:?}", other.map(|_| "Signatures").map_err(|e| e.to_string()))),
+                }
+            }
+            Ok(json!({"r": "ok", "problems": problems}))
+        }
+        _ => Err(format!("unknown c02 op {op}")),
+    }
+}
